@@ -43,7 +43,9 @@ structure Facts where
   getN1024 : List Shape    -- Bit1024.getNAs{I64,I32,I16} + the 6 public wrappers
   algebra64 : List Shape   -- Bit64.{Len,NLen,Full,Reverse,And,Or}
   algebra1024 : List Shape -- Bit1024.{Len,NLen,Reverse,OrThenReverse,And,Or,Equal}, NewBit1024
-  tabInit : Shape          -- `init`: u64Tab[i] = 1 << i for i in [0,64)
+  tabInit : Shape          -- the single `init` of internal/bit64.go, whole body: u64Tab[i] = 1 << i, seq64Buf[i] = i
+  setters : List Shape     -- Bit1024.{SetI32,UnsetI32,SetI16,UnsetI16}, whole bodies (nothing after the Set/Unset call)
+  kernelLocks : Nat        -- Lock/Unlock statements dropped by the translator in the six kernels (must be 0)
 deriving DecidableEq, Repr
 
 def Facts.expected : Facts where
@@ -56,6 +58,8 @@ def Facts.expected : Facts where
   algebra64 := List.replicate 6 .ok
   algebra1024 := List.replicate 8 .ok
   tabInit := .ok
+  setters := List.replicate 4 .ok
+  kernelLocks := 0
 
 /-! ## 64-bit layer -/
 
